@@ -652,6 +652,36 @@ func (c *Ctx) evalCall(env *CEnv, e *ast.CallExpr) CVal {
 			l := c.ghostComp(env, "lim", r, BV64)
 			n := fmt.Sprintf("(bvsub %s %s)", l, p)
 			return CVal{V: SliceV{sid, p, n, n, tUint8}, T: types.NewSlice(tUint8)}
+		case "enumNames":
+			// enumNames(v, r, "fallback", k1, "n1", k2, "n2", ...): every listed value formats as its name, every other as the fallback
+			if len(e.Args) < 3 || len(e.Args)%2 != 1 {
+				cerr("enumNames: bad argument count")
+			}
+			v := c.evalExpr(env, e.Args[0])
+			r := c.evalExpr(env, e.Args[1])
+			rs, ok := r.V.(StrV)
+			if !ok {
+				cerr("enumNames: result is not a string")
+			}
+			strOf := func(x ast.Expr) StrV {
+				l := c.evalExpr(env, x)
+				if l.K == nil || l.K.Kind() != constant.String {
+					cerr("enumNames: string literal expected")
+				}
+				return c.strLit(constant.StringVal(l.K))
+			}
+			var parts, others []string
+			for i := 3; i+1 < len(e.Args); i += 2 {
+				k := c.evalExpr(env, e.Args[i])
+				if k.K != nil {
+					k = c.materialize(k, v.T)
+				}
+				eq := fmt.Sprintf("(= %s %s)", v.V.(Sc).T, k.V.(Sc).T)
+				parts = append(parts, imp(eq, c.strEq(rs, strOf(e.Args[i+1]))))
+				others = append(others, not(eq))
+			}
+			parts = append(parts, imp(and(others...), c.strEq(rs, strOf(e.Args[2]))))
+			return CVal{V: Sc{and(parts...), "Bool"}, T: tBool}
 		case "windowAt":
 			// windowAt(r, o): the stream behind r from absolute offset o as a byte slice value
 			r := refOf(c.evalExpr(env, e.Args[0]))
